@@ -1,8 +1,10 @@
 """C44 - option updates are transactional, typed and survive a config round-trip (stateful).
 
 A history of operations is interpreted against a real OptManager (one option of every supported type, late options
-added during the history, one recording and two value-based rejecting listeners - one via `changed`, one via
-`subscribe(func, opts)`) and a plain dict model.  After every operation:
+added during the history; listeners in notification order: one *reacting* subscriber that answers every new value of
+`os` with a nested update of two other options (non-idempotent: appends to a sequence option), one value-based
+rejecting subscriber (`subscribe(func, opts)`), one recorder and one value-based rejecting `changed` receiver) and a
+plain dict model.  After every operation:
   * every option holds a value of its declared type (own predicate, bool counts as int like isinstance does);
   * if the operation was rejected (raised, or a listener raised OptionsError during it): every option has exactly its
     previous value, and every listener that was notified during the operation last saw exactly that restored state;
@@ -24,8 +26,9 @@ LEVEL = "exploration"
 RULE = ("Hypothesis op sequences (<=14 ops): update with 1-3 keys (right/wrong types, wrong type in any position, unknown "
         "key), attribute assignment, set()-specs rendered from typed intents (+malformed), deferred updates/specs with "
         "late add_option + process_deferred, reset, toggler/setter, save->load round trip; string values from "
-        "YAML-special words, quotes, ': ', '#', newlines, spaces, arbitrary Unicode scalars; non-trivial = an update "
-        "with >=2 keys of which one is rejected by type or by a listener, or a round trip containing a YAML-special "
+        "YAML-special words, quotes, ': ', '#', newlines, spaces, arbitrary Unicode scalars; a listener that reacts to new values of one option by a nested update of two others (non-idempotent append) and runs "
+        "before the vetoing listeners; non-trivial = an update "
+        "with >=2 keys of which one is rejected by type or by a listener, an update rejected after a nested update, or a round trip containing a YAML-special "
         "string; distinct by (op kinds, rejection pattern, special-string classes)")
 ASSUMPTIONS = [
     "defaults are acceptable to all listeners (reset() is never rejected)",
@@ -223,6 +226,9 @@ class _Listeners:
         self.declared = declared
         self.seen = {"rec": [], "r1": [], "r2": []}   # (updated, snapshot)
         self.raised = []
+        self.seen_os = set()
+        # order of notification: react (assigns other options), sub2 (may veto), rec, rej1 (may veto)
+        opts.subscribe(self.react, ["os"])
         opts.subscribe(self.sub2, SUB2)
         opts.changed.connect(self.rec)
         opts.changed.connect(self.rej1)
@@ -256,6 +262,16 @@ class _Listeners:
         if rej:
             self.raised.append("r2")
             raise exceptions.OptionsError("r2 rejects")
+
+    def react(self, opts, updated):
+        """a component that reacts to a new value of one option by assigning others (as addons do from configure):
+        every value of `os` it has not seen before is recorded in seq2 and its length stored in oi2.  Its own memory
+        (seen_os) is - realistically - not rolled back."""
+        if "os" in updated:
+            v = opts.os
+            if v and v not in self.seen_os:
+                self.seen_os.add(v)
+                opts.update(oi2=len(v), seq2=[*opts.seq2, v])
 
     def clear(self):
         for v in self.seen.values():
@@ -351,6 +367,7 @@ def check_case(case, ctx):
             k = op[0]
             kinds.append(k)
             lis.clear()
+            seen_os_before = set(lis.seen_os)
             before = {n: getattr(opts, n) for n in declared}
             expect = dict(model)        # expected state if the op is accepted
             assigned = None             # names the recording listener must be told (None = not checked)
@@ -527,6 +544,9 @@ def check_case(case, ctx):
                     ctx.fail("type:%s:%s" % (kind_of(n), tag), "%s: option %s holds %r" % (where, n, after[n]))
                     return
             if rejected:
+                if lis.seen_os != seen_os_before:
+                    nt.add("rejected-after-nested-update")
+                    tag += "+nested"
                 # 2. transactional
                 diff = [n for n in declared if strict(after[n]) != strict(before[n])]
                 if diff:
@@ -560,6 +580,12 @@ def check_case(case, ctx):
                     for n in declared:
                         model[n] = after[n]
                 else:
+                    reacted = bool(assigned and "os" in assigned and expect["os"] and expect["os"] not in seen_os_before)
+                    if reacted:
+                        # the reacting listener's nested update (after the assignment, before the later listeners)
+                        expect["oi2"] = len(expect["os"])
+                        expect["seq2"] = list(expect["seq2"]) + [expect["os"]]
+                        nt.add("nested-update-accepted")
                     diff = [n for n in declared if strict(after[n]) != strict(expect[n])]
                     if diff:
                         ctx.fail("value:" + tag, "%s: %s is %r, expected %r" % (where, diff[0], after[diff[0]], expect[diff[0]]))
@@ -570,7 +596,7 @@ def check_case(case, ctx):
                         if not rec:
                             ctx.fail("notify:missing:" + tag, where)
                             return
-                        wrong = [u for u, _ in rec if u != assigned]
+                        wrong = [u for u, _ in rec if u != assigned and not (reacted and u == {"oi2", "seq2"})]
                         if wrong:
                             ctx.fail("notify:names:" + tag, "%s: notified %r, assigned %r" % (where, sorted(wrong[0]), sorted(assigned)))
                             return
